@@ -64,16 +64,12 @@ element_handlers = {
     'complex_current_source': lambda kwargs: element_factory(elm.ComplexCurrentSource, **kwargs),
 }
 
-def element_factory(element: type[elm.Element], name: str = '', reverse: bool = False, **kwargs) -> elm.Element:
+def element_factory(element: type[elm.Element], reverse: bool = False, **kwargs) -> elm.Element:
     try:
-        return element(name=name, reverse=reverse, **kwargs)
+        return element(reverse=reverse, **kwargs) # a name is only passed on when the description has one: symbols that need one report it missing, the ground symbol keeps its default '0'
     except TypeError as e:
         missing_argument = str(e).split(":")[-1].strip()
-        provided_arguments = {}
-        if name != '':
-            provided_arguments = {'name': name}
-        provided_arguments.update(kwargs)
-        raise errors.MissingArgument(missing_argument, str(provided_arguments)) from e
+        raise errors.MissingArgument(missing_argument, str(dict(kwargs))) from e
 
 def transform_to_schematic_element(element: dict) -> elm.Element:
     try:
@@ -149,7 +145,7 @@ def create_schematic(circuit_data: dict, circuit_ax: Optional[Axes] = None) -> e
         with elm.Schematic(unit=unit) as schematic:
             fill(schematic, elements, unit, light_lamps, solution_definition)
         return schematic
-    schematic = elm.Schematic(unit=circuit_data['unit'], canvas=circuit_ax)
+    schematic = elm.Schematic(unit=unit, canvas=circuit_ax)
     fill(schematic, elements, unit, light_lamps, solution_definition)
     schematic.draw(show=False)
     return schematic
